@@ -39,6 +39,8 @@ def judge(chk, cases, res, verd, pid=PID):
     cnt = collections.Counter()
     ok = 0
     for c, r, v in zip(cases, res, verd):
+        if r['status'] == 'skipped':
+            continue
         cnt[v['v'] + (":" + v['why'] if v['v'] == 'skip' else '')] += 1
         if v['v'] == 'ok':
             ok += 1
